@@ -34,7 +34,7 @@ void h_paf_pair (void)
 	for (int k = 0 ; k < NS ; k++) samples [k] = 0x55555555 ;		/* the staging buffer is reused: nothing may survive in it */
 	PP.p.read_block = 0 ; PP.p.read_count = 0 ;
 	paf24_read_block (&P, &PP.p) ;
-	int g = g_idx ;
+	GHOST_HAVOC () ; int g = g_idx ;
 	if (0 <= g && g < NS)
 		__CPROVER_assert (samples [g] == orig [g], "every 24 bit sample comes back at its frame and channel") ; /*@C01.paf24_pack_then_unpack_is_identity*/
 	__CPROVER_assert (PP.p.read_block == 1 && PP.p.read_count == 0, "block accounting of the reader") ; /*@C01.paf_block_accounting*/
